@@ -54,7 +54,7 @@ def run(ctx):
     from . import c07
     from .common import reuse
 
-    reuse(ctx, "C06.R6", [c07.r2, c07.r3], "after a rejected frame the connection is reset and re-established (C07.R2 reset = disconnect + reconnect, C07.R3 failed attempts are retried)")
+    reuse(ctx, "C06.R6", [c07.r1, c07.r2, c07.r3], "after a rejected frame the connection is reset and re-established (C07.R2 reset = disconnect + reconnect, C07.R3 failed attempts are retried)")
 
 
 def qa_reference(ctx):
